@@ -190,6 +190,20 @@ def gen_history(rng, length, unsafe=False):
     def handles(pred=lambda p: True):
         return [L for L, p in pool.items() if p["handle"] and pred(p)]
 
+    computed = []      # lazy arrays that some compute / eager store has requested
+
+    def ancestors(L):
+        """lazy ancestors of L that the user holds"""
+        out, todo = [], list(pool[L].get("srcs", []))
+        while todo:
+            x = todo.pop()
+            if x in out:
+                continue
+            if pool[x]["lazy"] and pool[x]["handle"]:
+                out.append(x)
+            todo.extend(pool[x].get("srcs", []))
+        return out
+
     for _ in range(rng.randint(1, 3)):
         add_input()
 
@@ -207,7 +221,8 @@ def gen_history(rng, length, unsafe=False):
             hist.append({"op": "map", "fn": rng.randint(1, 9), "srcs": srcs, "id": L})
             for s in srcs:
                 pool[s]["deps"] += 1
-            pool[L] = dict(lazy=True, chunks=cls, handle=True, deps=0, ret=0, depth=1 + max(pool[s]["depth"] for s in srcs), target=None)
+            pool[L] = dict(lazy=True, chunks=cls, handle=True, deps=0, ret=0, depth=1 + max(pool[s]["depth"] for s in srcs), target=None,
+                           srcs=list(srcs))
         elif r < 0.35:    # rechunk
             cands = handles(lambda p: p["depth"] < 7)
             s = rng.choice(cands)
@@ -215,15 +230,33 @@ def gen_history(rng, length, unsafe=False):
             hist.append({"op": "rechunk", "src": s, "id": L})
             pool[s]["deps"] += 1
             pool[L] = dict(lazy=True, chunks="B" if pool[s]["chunks"] == "A" else "A", handle=True, deps=0, ret=0,
-                           depth=pool[s]["depth"] + 1, target=None)
+                           depth=pool[s]["depth"] + 1, target=None, srcs=[s])
         elif r < 0.62:    # compute
             cands = handles()
             n = rng.choice([1, 1, 1, 2, 3])
             arrs = [rng.choice(cands[-5:] if rng.random() < 0.5 else cands) for _ in range(n)]
-            st = {"op": "compute", "arrs": arrs, "opt": rng.random() < 0.7, "resume": rng.random() < 0.25,
+            resume = rng.random() < 0.25
+            # resume over shared sub-graphs: an array computed earlier (its ancestors possibly fused away and never
+            # written, or written by an unoptimized compute) requested again *together with* some of its ancestors
+            done = [L for L in computed if pool[L]["handle"] and ancestors(L)]
+            if done and rng.random() < 0.35:
+                X = rng.choice(done)
+                anc = ancestors(X)
+                arrs = rng.sample(anc, min(len(anc), rng.choice([1, 1, 2])))
+                if rng.random() < 0.85:
+                    arrs.append(X)
+                if rng.random() < 0.3:
+                    arrs.append(rng.choice(cands))
+                rng.shuffle(arrs)
+                n = len(arrs)
+                resume = rng.random() < 0.9
+            st = {"op": "compute", "arrs": arrs, "opt": rng.random() < 0.7, "resume": resume,
                   "api": "method" if n == 1 and rng.random() < 0.6 else "function",
                   "executor": rng.choice([None, None, "single-threaded", "threads"])}
             hist.append(st)
+            for a in arrs:
+                if pool[a]["lazy"] and a not in computed:
+                    computed.append(a)
             for a in arrs:
                 if pool[a]["target"] is not None and pool[a]["target"] not in written:
                     written.append(pool[a]["target"])
@@ -257,9 +290,11 @@ def gen_history(rng, length, unsafe=False):
                     ids.append(L)
                     pool[s]["deps"] += 1
                     pool[L] = dict(lazy=True, chunks=pool[s]["chunks"], handle=not eager, deps=0, ret=0,
-                                   depth=pool[s]["depth"] + 1, target=t)
+                                   depth=pool[s]["depth"] + 1, target=t, srcs=[s])
                 if eager:
                     written.append(t)
+                    if pool[s]["lazy"] and s not in computed:
+                        computed.append(s)
             hist.append({"op": "store", "pairs": pairs, "eager": eager, "opt": rng.random() < 0.8, "api": api, "ids": ids})
         elif r < 0.87:    # from_zarr of an earlier target
             cands = list(range(nt[0])) if (unsafe and rng.random() < 0.3) else written
@@ -283,6 +318,50 @@ def gen_history(rng, length, unsafe=False):
     assert valid(hist), hist
     return hist
 
+
+def _chain(kind, fns, extra=()):
+    """input 1, then array i+2 = F_fns[i](array i+1)"""
+    h = [{"op": "input", "kind": kind, "k": 0, "id": 1}]
+    for i, f in enumerate(fns):
+        h.append({"op": "map", "fn": f, "srcs": [i + 1], "id": i + 2})
+    return h + list(extra)
+
+
+def _C(arrs, opt=True, resume=False, api=None, executor=None):
+    return {"op": "compute", "arrs": list(arrs), "opt": opt, "resume": resume,
+            "api": api or ("method" if len(arrs) == 1 else "function"), "executor": executor}
+
+
+# Resume over shared sub-graphs (all satisfy the hypothesis of C10_partial): a descendant is computed first, so
+# that its ancestors are fused away and never written (or written, when unoptimized); then the ancestors are
+# requested, with resume=True, together with the complete descendant / alone / with unrelated arrays.
+RESUME_CORPUS = [
+    # b = F(a); c = F(b); c.compute(); compute(b, c, resume=True)
+    _chain("asarray", [1, 2], [_C([3]), _C([2, 3], resume=True)]),
+    _chain("asarray", [1, 2], [_C([3]), _C([3, 2], opt=False, resume=True)]),
+    _chain("zarr", [1, 2], [_C([3]), _C([2], resume=True), _C([2, 3], resume=True)]),
+    _chain("from_array", [3, 4], [_C([3]), _C([1, 2, 3], resume=True), _C([2], opt=False)]),
+    # longer chain, several resume computes, optimize toggled between them
+    _chain("asarray", [1, 2, 3], [_C([4]), _C([2, 4], resume=True), _C([3, 2, 4], opt=False, resume=True), _C([3], resume=True)]),
+    _chain("asarray", [1, 2, 3], [_C([4], opt=False), _C([2, 3, 4], resume=True), _C([3, 4], opt=True, resume=True)]),
+    _chain("asarray", [5, 6, 7], [_C([3]), _C([4]), _C([2, 3, 4], resume=True, executor="threads")]),
+    # with an unrelated array that still needs computing
+    _chain("asarray", [1, 2], [{"op": "map", "fn": 9, "srcs": [1], "id": 4}, _C([3]), _C([2, 3, 4], opt=False, resume=True),
+                               _C([4, 2], resume=True)]),
+    # diamond: d = F(b, c), c = F(b)
+    _chain("asarray", [1, 2], [{"op": "map", "fn": 4, "srcs": [2, 3], "id": 4}, _C([4]), _C([2, 3, 4], resume=True),
+                               _C([3, 2], opt=False, resume=True)]),
+    # the descendant was materialised by an eager store, the ancestor is asked for afterwards
+    _chain("asarray", [1, 2], [{"op": "store", "pairs": [[3, 0]], "eager": True, "opt": True, "api": "to_zarr", "ids": [None]},
+                               _C([2, 3], resume=True), _C([2], resume=True)]),
+    # ancestor written by an unoptimized compute, then a new descendant, then everything with resume
+    _chain("asarray", [1, 2], [_C([3], opt=False), {"op": "map", "fn": 3, "srcs": [3], "id": 4}, _C([4]),
+                               _C([2, 3, 4], resume=True), _C([4, 3], opt=False, resume=True)]),
+    # rechunk in the middle (never fused): r = rechunk(b); c = F(r)
+    [{"op": "input", "kind": "asarray", "k": 0, "id": 1}, {"op": "map", "fn": 1, "srcs": [1], "id": 2},
+     {"op": "rechunk", "src": 2, "id": 3}, {"op": "map", "fn": 2, "srcs": [3], "id": 4},
+     _C([4]), _C([2, 4], resume=True), _C([3, 2, 4], resume=True)],
+]
 
 WITNESS_LATE = [
     {"op": "input", "kind": "asarray", "k": 0, "id": 1},
